@@ -471,5 +471,6 @@ func WriteSiteTable(root string, res *Result, instrumented bool) error {
 	}
 	sb.WriteString("}\n\n")
 	fmt.Fprintf(&sb, "// Instrumented is false in the degraded (uninstrumented) build.\nconst Instrumented = %v\n", instrumented)
+	fmt.Fprintf(&sb, "\n// UsesSync: some library file imports package sync (rewritten to the cooperative shim).\nconst UsesSync = %v\n", res.UsesSync)
 	return os.WriteFile(filepath.Join(root, "internal", "zsimrt", "sites_gen.go"), []byte(sb.String()), 0o644)
 }
